@@ -52,7 +52,8 @@ def stepJson (s : St) (j : Json) : Except String (St × String) := do
 def handle (input : Json) : Except String Json := do
   let dst ← fldStr input "dst"
   let inpkg ← fldBool input "inpkg"
-  let mut s := St.init dst inpkg
+  let dstName := (← fldStrOpt input "dstName").getD ""
+  let mut s := St.init dst inpkg dstName
   let mut outs : Array String := #[]
   for j in (← fldArr input "ops") do
     let (s', o) ← stepJson s j
